@@ -74,6 +74,21 @@ def outputs(name, obj):
     return out
 
 
+def readback_dev(obj, nfft, sampling):
+    """How far the grid an object REPORTS after computing is from the grid that was requested:
+    NFFT and df read back, len(frequencies()) against len(psd), every axis entry against bin*sampling/NFFT.
+    0.0 when identical, inf on any discrete disagreement."""
+    psd = np.asarray(obj.psd)
+    f = np.asarray(obj.frequencies(), dtype=float)
+    if obj.NFFT != nfft or len(f) != len(psd):
+        return float('inf')
+    k = np.arange(len(f), dtype=float)
+    if obj.sides == 'centerdc':
+        k = k - nfft // 2
+    dev = float(np.max(np.abs(f - k * sampling / nfft))) / sampling if len(f) else 0.0
+    return max(dev, abs(obj.df - sampling / float(nfft)) / (sampling / float(nfft)))
+
+
 FUNCTIONS = ['speriodogram', 'CORRELOGRAMPSD', 'CORRELATION', 'xcorr', 'arburg', 'aryule', 'arcovar', 'modcovar',
              'arcovar_marple', 'modcovar_marple', 'arma_estimate', 'ma', 'minvar', 'music', 'ev', 'pmtm-unity',
              'pmtm-eigen', 'pmtm-adapt']
